@@ -1,7 +1,7 @@
 \* force deletion forbidden, nodes go down, kill now, fresh caches
 CONSTANTS N = 2 MaxAtt = 2 Delay = 1 Strategy = "AllSuccessful" PT = 2 FD = 2 TTL = 2 Forbid = TRUE Foreign = FALSE MaxTime = 8 MaxEvq = 3 MaxFaults = 2 MaxCrash = 0 Fresh = TRUE KillDelays = {0} KillEdits = {} UserDeletes = FALSE ExtDeletes = FALSE NodeDowns = TRUE
  Rejects = FALSE
- Holds = FALSE Invalids = FALSE D = 48
+ Holds = FALSE Invalids = FALSE WatchBreaks = FALSE D = 48
 SPECIFICATION SSpec
 INVARIANT EmitDone
 CHECK_DEADLOCK FALSE
